@@ -6,6 +6,8 @@ open Gossamer.C28
 #print axioms C28_no_overlap
 #print axioms C28_alloc_result
 #print axioms C28_frame
+#print axioms C28_host_malloc_result
+#print axioms C28_host_traps
 #print axioms C28_bad_free
 #print axioms C28_double_free
 #print axioms C28_freed_after_free
